@@ -34,8 +34,9 @@ func UpdateCase(r *rand.Rand, name string, o UpdateOpts) *Case {
 	ctxD := decl(src, "Ctx", Struct(F("ID", Basic("string"))))
 	fields := map[string]vref.FieldSpec{}
 	var methLines, convLines []string
-	kinds := []string{"basic", "basic", "namedbasic", "struct", "slice", "map", "ptrbasic", "ptrstruct", "chan", "any", "identslice", "identptr", "ignore", "missing", "rename", "func", "basic2ptr", "funcfield"}
+	kinds := []string{"basic", "basic", "namedbasic", "struct", "slice", "map", "ptrbasic", "ptrstruct", "chan", "any", "identslice", "identptr", "ignore", "missing", "rename", "func", "basic2ptr", "funcfield", "computed"}
 	needSkip, needMissing := false, false
+	computed := false
 	unnamedSource := r.Intn(5) == 0
 	used := map[string]bool{}
 	nf := 3 + r.Intn(6)
@@ -70,6 +71,16 @@ func UpdateCase(r *rand.Rand, name string, o UpdateOpts) *Case {
 			ti := decl(tgt, "TI", Struct(F("X", Basic("int"))))
 			sS.Fields = append(sS.Fields, F(f, Ptr(Named(si))))
 			tS.Fields = append(tS.Fields, F(f, Ptr(Named(ti))))
+		case "computed":
+			// a target field computed by a function without source: always assigned
+			if computed {
+				i--
+				continue
+			}
+			computed = true
+			tS.Fields = append(tS.Fields, F(f, Basic("string")))
+			methLines = append(methLines, "map "+f+" | Make")
+			fields[f] = vref.FieldSpec{Func: "fn:Make", NoSource: true}
 		case "basic2ptr":
 			sS.Fields = append(sS.Fields, F(f, Basic(b)))
 			tS.Fields = append(tS.Fields, F(f, Ptr(Basic(b))))
@@ -202,6 +213,16 @@ func UpdateCase(r *rand.Rand, name string, o UpdateOpts) *Case {
 		nv = 45
 	}
 	cv.Spec = &vref.Spec{Seed: o.Seed, NValues: nv, Monitors: []string{"update"}, Conv: flagsConv}
+	if computed {
+		conv.Files = map[string]string{"funcs.go": "package conv\n\nfunc Make() string { return \"made\" }\n"}
+		cv.Spec.Funcs = []*vref.FuncSpec{{Key: "fn:Make", Kind: "map", Roles: []string{}}}
+		cv.Callables = map[string]string{"fn:Make": "conv.Make"}
+		cv.GlueImports = []string{fmt.Sprintf("conv %q", c.Root+"/conv")}
+		if o.Format == "variables" {
+			cv.Callables["fn:Make"] = "gen.Make"
+			cv.GlueImports = nil
+		}
+	}
 	c.Convs = []*Converter{cv}
 	c.Patterns = []string{"./conv"}
 	var kl []string
